@@ -421,7 +421,16 @@ def check_retyped(ctx, c):
             f = ["func", row, list(reversed(row)), []]
             ins, outs = [f, *row], list(reversed(row))
         d = Dfg(*B.row(ins))
-        n = d.add_op(op, *d.inputs())
+        given = len(ins)
+        if name == "CallIndirect" and row:
+            # the call is added with the function wire and only some of the arguments; the others are linked
+            # afterwards: the signature is that of the function value, not of what happens to be connected
+            given = 1 + (use + len(c["rows"])) % (len(row) + 1)
+        n = d.add_op(op, *d.inputs()[:given])
+        if given < len(ins):
+            ctx.count("monitor:retyped-partially-wired-call")
+            for i in range(given, len(ins)):
+                d.hugr.add_link(d.inputs()[i], n.inp(i))
         want = (exp_row(ins), exp_row(outs))
 
         def bad(kind, exp, obs):
